@@ -7,7 +7,7 @@ from symx import tracegen as TG
 ID = "C16"
 MODULES = ["hta.trace_analysis", "hta.analyzers.cuda_kernel_analysis"]
 MUST_NOT_RAISE = True
-BUDGET_S = {"quick": 480, "thorough": 3300}
+BUDGET_S = {"quick": 480, "thorough": 1200}
 TIE_MODE = "adversarial"
 TIE_STABLE_FUNCS = ("_construct_call_stack_graph",)     # the comparator decides that order (C03)
 OPNAME = "aten::linear"
